@@ -211,15 +211,16 @@ theorem recover_after_truncate (es es' : List (Text × Text)) (hts : TsOk es) (h
 
 /-- NO OVERLAP ⇒ EXACT: in every interleaving in which no `append_string` overlaps a `load()`
     call (appends before the first load, between loads, after loads: all allowed), every
-    `load()` call — at the read that sees `_loaded` — has yielded exactly the logical history
+    `load()` call — when it has delivered the read that saw `_loaded` — has yielded exactly the
+    logical history
     (everything stored or inserted so far), each entry once, newest first; and before that it
     has yielded a prefix of it. -/
 theorem no_overlap_exact (old pre : List Text) (sched : List Step)
     (hok : okRun (TH.init old pre) sched) :
     let st := run (TH.init old pre) sched
-    ((st.cpc = .waiting ∨ st.cpc = .reading) → st.out <+: view st) ∧
-    (st.cpc = .reading → st.loaded = true →
-      (step st .cread).out = view st ∧ (step st .cread).cpc = .done) ∧
+    ((st.cpc = .waiting ∨ st.cpc = .reading ∨ st.cpc = .yielding) → st.out <+: view st) ∧
+    (st.cpc = .yielding → st.sawDone = true →
+      (step st .cyield).out = view st ∧ (step st .cyield).cpc = .done) ∧
     (st.loaded = true → st.getStrings = (view st).reverse) := by
   have h := inv_run _ (inv_init old pre) sched hok
   refine ⟨out_prefix _ h, final_read _ h, ?_⟩
@@ -227,13 +228,13 @@ theorem no_overlap_exact (old pre : List Text) (sched : List Step)
   simp [TH.getStrings, h.full hl]
 
 example : okRun (TH.init ["o1".toList] ["p1".toList])
-    [.ains "x".toList, .astore, .cstart, .lreset, .lsnap, .lappend, .cwait, .cread, .lnotify,
+    [.ains "x".toList, .astore, .cstart, .lreset, .lsnap, .lappend, .cwait, .cread, .cyield, .lnotify,
      .lappend, .lnotify, .lappend, .lnotify, .ldone, .lfinal, .cwait] := by
   simp [okRun, allowed, step, TH.init]
 
 example : (run (TH.init ["o1".toList] ["p1".toList])
-    [.ains "x".toList, .astore, .cstart, .lreset, .lsnap, .lappend, .cwait, .cread, .lnotify,
-     .lappend, .lnotify, .lappend, .lnotify, .ldone, .lfinal, .cwait, .cread]).out
+    [.ains "x".toList, .astore, .cstart, .lreset, .lsnap, .lappend, .cwait, .cread, .cyield, .lnotify,
+     .lappend, .lnotify, .lappend, .lnotify, .ldone, .lfinal, .cwait, .cread, .cyield]).out
     = ["x".toList, "p1".toList, "o1".toList] := by decide
 
 /-- LOADER ONLY: with no concurrent `append_string` at all, under every interleaving of the
@@ -242,7 +243,8 @@ example : (run (TH.init ["o1".toList] ["p1".toList])
 theorem loader_only_equiv (old pre : List Text) (sched : List Step) (hs : noAppend sched) :
     let st := run (TH.init old pre) sched
     st.storage = old ++ pre ∧
-    ((st.cpc = .waiting ∨ st.cpc = .reading) → st.out <+: (old ++ pre).reverse) ∧
+    ((st.cpc = .waiting ∨ st.cpc = .reading ∨ st.cpc = .yielding) →
+      st.out <+: (old ++ pre).reverse) ∧
     (st.cpc = .done → st.out = (old ++ pre).reverse) := by
   obtain ⟨h, hst⟩ := inv2_run _ (inv2_init old pre) sched hs
   have hst' : (run (TH.init old pre) sched).storage = old ++ pre := by rw [hst]; rfl
@@ -252,12 +254,12 @@ theorem loader_only_equiv (old pre : List Text) (sched : List Step) (hs : noAppe
   · intro hc; rw [← hv]; exact out_prefix _ h.inv hc
   · intro hc; rw [h.doneOut hc, hst']
 
-example : noAppend [.cstart, .cwait, .cread, .lreset, .lsnap, .lappend, .lnotify, .cwait, .cread,
-    .lappend, .ldone, .lnotify, .ldone, .lfinal, .cwait, .cread] := by simp [noAppend]
+example : noAppend [.cstart, .cwait, .cread, .cyield, .lreset, .lsnap, .lappend, .lnotify, .cwait, .cread, .cyield,
+    .lappend, .ldone, .lnotify, .ldone, .lfinal, .cwait, .cread, .cyield] := by simp [noAppend]
 
 example : (run (TH.init ["o1".toList] ["p1".toList])
-    [.cstart, .cwait, .cread, .lreset, .lsnap, .lappend, .lnotify, .cwait, .cread,
-     .lappend, .ldone, .lnotify, .ldone, .lfinal, .cwait, .cread]).cpc = .done := by decide
+    [.cstart, .cwait, .cread, .cyield, .lreset, .lsnap, .lappend, .lnotify, .cwait, .cread, .cyield,
+     .lappend, .ldone, .lnotify, .ldone, .lfinal, .cwait, .cread, .cyield]).cpc = .done := by decide
 
 /-- TERMINATION / no lost wake-up: (1) a schedule of loader / consumer steps that all change
     the state is never longer than the `budget` of its start state, and (2) as long as a
@@ -268,14 +270,15 @@ theorem loader_terminates (old pre : List Text) (sched : List Step)
     let st := run (TH.init old pre) sched
     (∀ more : List Step, (∀ a ∈ more, isLoadStep a) → effective st more →
         more.length ≤ budget st) ∧
-    ((st.cpc = .waiting ∨ st.cpc = .reading) → ∃ a, isLoadStep a ∧ step st a ≠ st) := by
+    ((st.cpc = .waiting ∨ st.cpc = .reading ∨ st.cpc = .yielding) →
+      ∃ a, isLoadStep a ∧ step st a ≠ st) := by
   have h := inv_run _ (inv_init old pre) sched hok
   refine ⟨?_, no_deadlock _ h⟩
   intro more hm he
   have := sched_bounded _ more hm he
   omega
 
-example : budget (run (TH.init ["o1".toList, "o2".toList] []) [.cstart]) = 26 := by decide
+example : budget (run (TH.init ["o1".toList, "o2".toList] []) [.cstart]) = 35 := by decide
 
 /-! ### F5: an `append_string` that overlaps a `load()` — the property is FALSE -/
 
@@ -283,15 +286,15 @@ example : budget (run (TH.init ["o1".toList, "o2".toList] []) [.cstart]) = 26 :=
 theorem f5_duplicate :
     (run (TH.init ["o1".toList, "o2".toList] [])
       [.cstart, .lreset, .ains "NEW".toList, .astore, .lsnap, .lappend, .lnotify, .lappend,
-       .lnotify, .lappend, .lnotify, .ldone, .lfinal, .cwait, .cread]).out
+       .lnotify, .lappend, .lnotify, .ldone, .lfinal, .cwait, .cread, .cyield]).out
     = ["NEW".toList, "NEW".toList, "o2".toList, "o1".toList] := by decide
 
 /-- F5b: appended after the consumer took one item: `insert(0, …)` shifts `items_yielded` →
     an old item is yielded twice and the new entry NEVER -/
 theorem f5_shift :
     (run (TH.init ["o1".toList, "o2".toList] [])
-      [.cstart, .lreset, .lsnap, .lappend, .lnotify, .cwait, .cread, .ains "NEW".toList, .astore,
-       .lappend, .lnotify, .ldone, .lfinal, .cwait, .cread]).out
+      [.cstart, .lreset, .lsnap, .lappend, .lnotify, .cwait, .cread, .cyield, .ains "NEW".toList, .astore,
+       .lappend, .lnotify, .ldone, .lfinal, .cwait, .cread, .cyield]).out
     = ["o2".toList, "o2".toList, "o1".toList] := by decide
 
 /-- F5c: `append_string` inserted before the list reset and stored after the snapshot → the
@@ -299,7 +302,7 @@ theorem f5_shift :
 theorem f5_lost :
     let st := run (TH.init ["o1".toList] [])
       [.cstart, .ains "NEW".toList, .lreset, .lsnap, .astore, .lappend, .lnotify, .ldone, .lfinal,
-       .cwait, .cread]
+       .cwait, .cread, .cyield]
     st.out = ["o1".toList] ∧ st.cpc = .done ∧ st.getStrings = ["o1".toList] ∧
     st.storage = ["o1".toList, "NEW".toList] := by decide
 
